@@ -23,11 +23,11 @@ def print_known(pid, seen):
         if k['name'] in seen and k.get('status') == 'known' and pid in k.get('properties', []):
             print(f'KNOWN-FINDING: property={pid} {k["name"]}: {k["signature"]}')
 
-def tlc_trace(module, tracefile, invs, outdir, extra_consts=''):
+def tlc_trace(module, tracefile, invs, outdir, extra_consts='', spec='Spec'):
     os.makedirs(outdir, exist_ok=True)
     cfg = f'{outdir}/T.cfg'
     with open(cfg, 'w') as f:
-        f.write(f'SPECIFICATION Spec\nCONSTANTS\n  TraceFile = "{tracefile}"\n{extra_consts}')
+        f.write(f'SPECIFICATION {spec}\nCONSTANTS\n  TraceFile = "{tracefile}"\n{extra_consts}')
         f.write('CHECK_DEADLOCK FALSE\nPOSTCONDITION TraceAccepted\nALIAS Alias\nINVARIANTS\n')
         for i in invs: f.write(f'  {i}\n')
     rc, out = core.tlc(module, cfg, outdir, workers=1, heap='3g', timeout=1500)
@@ -474,9 +474,6 @@ def run_scenarios(pid, tier, seed):
     allsc = f'{rundir}/all.ndjson'
     nall = gen_vectors(genmod, allsc, rundir)
     lines = open(allsc).read().splitlines()
-    if tier == 'quick':
-        k = 3 if pid == 'C13' else 1
-        lines = [l for i, l in enumerate(lines) if i % k == seed % k]
     scen = f'{rundir}/scenarios.ndjson'
     open(scen, 'w').write('\n'.join(lines) + '\n')
     meta = {}
@@ -484,7 +481,7 @@ def run_scenarios(pid, tier, seed):
         j = json.loads(l); meta[j['sid']] = j
     obs = f'{rundir}/obs.ndjson'
     env = dict(os.environ, VERIF_REPO=os.environ.get('VERIF_REPO', '/repo'))
-    cmd = f'{V}/build/procx -build -bin {V}/build/resonate -scenarios {scen} -out {obs} -dir {rundir}/scratch -par 12'
+    cmd = f'{V}/build/procx -build -bin {V}/build/resonate -scenarios {scen} -out {obs} -dir {rundir}/scratch -par 24'
     try:
         p = subprocess.run(cmd, shell=True, capture_output=True, text=True, timeout=3000, env=env)
     except subprocess.TimeoutExpired:
@@ -571,6 +568,83 @@ def run_scenarios(pid, tier, seed):
     print(f'{pid} {tier}: {len(lines)} of {nall} scenarios played against the real binary ({nsteps} steps) and accepted by TLC; {wall:.0f}s')
     shutil.rmtree(rundir, ignore_errors=True)
     return 0
+
+# ---------------------------------------------------------------------------------------
+# C06, process level: behaviours of Durable.tla played by procx against the real binary
+# ---------------------------------------------------------------------------------------
+def durable_stage(pid, tier, seed, rundir):
+    """returns (violation or None, coverage dict, regenerate command)"""
+    core.build(['procx'])
+    nbeh, steps = (40, 8) if tier == 'quick' else (400, 10)
+    scen = f'{rundir}/durable.ndjson'
+    p = core.sh(f'{V}/bin/durgen.sh {nbeh} {steps} {seed} {scen}')
+    lines = open(scen).read().splitlines() if os.path.exists(scen) else []
+    if not lines:
+        print(p.stdout, p.stderr); core.die('TLC could not generate behaviours from DurableGen.tla')
+    lines = lines[:nbeh * 2]
+    open(scen, 'w').write('\n'.join(lines) + '\n')
+    meta = {}
+    for l in lines:
+        j = json.loads(l); meta[j['sid']] = j
+    obs = f'{rundir}/durable_obs.ndjson'
+    env = dict(os.environ, VERIF_REPO=os.environ.get('VERIF_REPO', '/repo'))
+    cmd = f'{V}/build/procx -build -bin {V}/build/resonate -scenarios {scen} -out {obs} -dir {rundir}/dscratch -par 24'
+    try:
+        p = subprocess.run(cmd, shell=True, capture_output=True, text=True, timeout=3000, env=env)
+    except subprocess.TimeoutExpired:
+        core.die('procx timed out')
+    if p.returncode != 0 or not os.path.exists(obs):
+        print(p.stdout[-1500:], p.stderr[-1500:]); core.die('procx failed (could the server binary be built?)')
+    # plumbing: the model step and role of every procx step, the ops onto the begin event
+    chunks, cur, count = [], [], 0
+    per = max(1, (len(lines) + 7) // 8)
+    stats = dict(scenarios=len(lines), steps=0, kills=0, terms=0, restarts=0, crashes_during_recovery=0, bursts=0, inflight=0, inflight_unacked=0, looks=0)
+    samples = []
+    for l in open(obs):
+        e = json.loads(l)
+        m = meta[e['sid']]
+        if e['e'] == 'begin':
+            if count and count % per == 0 and cur:
+                chunks.append(cur); cur = []
+            count += 1
+            e = dict(e='begin', sid=e['sid'], ops=m['ops'])
+        elif e['e'] == 'step':
+            st = m['steps'][e['k']]
+            e = dict(e='step', sid=e['sid'], i=st['i'], role=st['role'], do=e['do'], name=e.get('name', ''), replied=e['replied'],
+                     code=e['code'], alive=e['alive'], **{'class': e['class']},
+                     json=e['json'] if (st['role'] in ('rows', 'get') or e['do'] == 'burst') else [])
+            stats['steps'] += 1
+            d = e['do']
+            if d == 'kill': stats['kills'] += 1
+            if d == 'term': stats['terms'] += 1
+            if d == 'start': stats['restarts'] += 1
+            if d == 'startkill': stats['crashes_during_recovery'] += 1
+            if d == 'rows': stats['looks'] += 1
+            if d == 'burst':
+                stats['bursts'] += 1; stats['inflight'] += len(e['json']); stats['inflight_unacked'] += sum(1 for r in e['json'] if r['class'] != '2xx')
+                if len(samples) < 3: samples.append(dict(sid=e['sid'], burst=[r for r in e['json'] if not r['name'].startswith('f')], filler=sum(1 for r in e['json'] if r['name'].startswith('f'))))
+        elif e['e'] == 'end':
+            e = dict(e='end', sid=e['sid'], alive=e['alive'], panicked=e['panicked'], logtail=e.get('logtail', '')[:300])
+        cur.append(json.dumps(small_numbers(e)))
+    if cur: chunks.append(cur)
+    files = []
+    os.makedirs(f'{rundir}/dchunks', exist_ok=True)
+    for i, c in enumerate(chunks):
+        fp = f'{rundir}/dchunks/c{i}.ndjson'; open(fp, 'w').write('\n'.join(c) + '\n'); files.append(fp)
+    invs = ['C06_AckedSurvives', 'C06_AllOrNothing', 'C06_Restarts', 'C06_Resumes', 'Playable']
+    consts = '  Known = {}\n  Promises = {"a", "b"}\n  MaxSteps = 1000\n'
+    with ThreadPoolExecutor(max_workers=8) as ex:
+        rs = list(ex.map(lambda a: tlc_trace('DurableTrace.tla', a[1], invs, f'{rundir}/dv{a[0]}', extra_consts=consts, spec='TSpec'), enumerate(files)))
+    viol = None
+    for r in rs:
+        if r['error']:
+            print(r['error']); core.die('TLC could not validate the observations of the durability scenarios (machinery error)')
+        if r['violated'] == 'Playable':
+            print(r.get('chk')); core.die('a durability scenario could not be played (a request of the scenario was refused)')
+        if r['violated'] and viol is None:
+            r['module'] = 'DurableTrace.tla'; viol = r
+    stats['samples'] = samples
+    return viol, stats, cmd
 
 def run(pid, tier, seed):
     if pid in ('C13', 'C20'):
